@@ -5,7 +5,7 @@
    signed id exists); for a database state the intended E is `graph_index (gr d)`.  Keeping E a
    parameter lets the removal functions (which change the graph first and the values afterwards)
    be handled compositionally. *)
-From Agdb Require Import Bytes DbValue Graph DbModel Search Queries DbValueProofs DbFrameProofs KvProofs KvDbProofs KvSelectProofs IndexProofs.
+From Agdb Require Import Bytes DbValue Graph DbModel Search Queries DbValueEqProofs DbFrameProofs KvProofs KvDbProofs KvSelectProofs IndexProofs.
 From Coq Require Import ZifyBool ZifyNat ZifyN.
 Open Scope Z_scope.
 
